@@ -25,9 +25,9 @@ def S(*xs):
 
 
 def mc(name, clients=("c1", "c2"), maxops=2, ops=("send", "call", "ping", "stop"), scripts="ScriptsCore", cfgs="CfgsCore",
-       kinds="InitKindsAddr", faults=(), maxfaults=0, horizon=0, names="NamesSmall", must_cover=()):
+       kinds="InitKindsAddr", faults=(), maxfaults=0, horizon=0, names="NamesSmall", must_cover=(), idle=False):
     return {"name": name, "Actor": S("a1"), "Client": S(*clients), "MaxOps": maxops, "OpSet": S(*ops), "Scripts": "<- " + scripts,
-            "Cfgs": "<- " + cfgs, "InitKinds": "<- " + kinds, "Faults": S(*faults), "MaxFaults": maxfaults, "Horizon": horizon,
+            "Cfgs": "<- " + cfgs, "InitKinds": "<- " + kinds, "Faults": S(*faults), "MaxFaults": maxfaults, "Horizon": horizon, "IdleClock": "TRUE" if idle else "FALSE",
             "Names": "<- " + names, "must_cover": list(must_cover)}
 
 
@@ -109,8 +109,23 @@ PROPS = {
                          mc("Restart-2x2", ops=("send", "restart"), scripts="ScriptsPlain", cfgs="CfgsStrat2", must_cover=("RestartTaken", "RestartRefresh"))],
                "thorough": [mc("Restart-2x3", maxops=3, ops=("send", "call", "restart", "stop"), scripts="ScriptsRestart", cfgs="CfgsStrat2"),
                             mc("Restart-3x2", clients=C3, ops=("send", "call", "restart"), scripts="ScriptsRestart", cfgs="CfgsStrat2", kinds="InitKindsSC")]},
-        "families": [("restart", 300, 3000)],
+        "dev_demo": [("D3", mc("Timers-race-1x1", clients=("c1",), maxops=1, ops=("send", "stop", "drop"), scripts="ScriptsTimers", cfgs="CfgsTimersQ", horizon=4))],
+        "families": [("restart", 250, 2500), ("timers", 150, 1500)],
         "relevant": r'"op":"restart"|ctx_restart', "relevant_min": 1,
+    },
+    "C10": {
+        "invariants": ["C10", "Term_NoTimerLeak", "Term_ExactlyK", "Term_WeakInert"],
+        "mc": {"quick": [mc("Timers-idle-1x1", clients=("c1",), maxops=1, ops=("send", "stop", "drop"), scripts="ScriptsPlain", cfgs="CfgsTimers", horizon=6, idle=True,
+                            must_cover=("TimerStart", "TimerFire", "TimerFlushed", "TimerEnd", "Advance")),
+                         mc("Timers-race-1x1", clients=("c1",), maxops=1, ops=("send", "stop", "drop"), scripts="ScriptsTimers", cfgs="CfgsTimersQ", horizon=4,
+                            must_cover=("TimerFire", "TimerEnd", "Advance", "RestartRefresh"))],
+               "thorough": [mc("Timers-race-1x2", clients=("c1",), maxops=2, ops=("send", "stop", "drop"), scripts="ScriptsTimers", cfgs="CfgsTimersQ", horizon=4),
+                            mc("Timers-race-1x1", clients=("c1",), maxops=1, ops=("send", "stop", "drop", "call"), scripts="ScriptsTimers", cfgs="CfgsTimers", horizon=5),
+                            mc("Timers-b0-1x2", clients=("c1",), maxops=2, ops=("send", "call", "stop"), scripts="ScriptsPlain", cfgs="CfgsTimers0", horizon=5),
+                            mc("Timers-idle-1x2", clients=("c1",), maxops=2, ops=("send", "stop", "drop"), scripts="ScriptsPlain", cfgs="CfgsTimers", horizon=8, idle=True),
+                            mc("Timers-cancel-1x2", clients=("c1",), maxops=2, ops=("send", "stop"), scripts="ScriptsFail", cfgs="CfgsTimers", horizon=4, faults=("cancel",), maxfaults=1)]},
+        "families": [("timers", 300, 3000)],
+        "relevant": r'timer_fire', "relevant_min": 1,
     },
     "C11": {
         "invariants": ["C11", "C02"],
